@@ -123,9 +123,12 @@ Proof. exact bookkeeping_section_needed_proved. Qed.
 Print Assumptions bookkeeping_section_needed.
 
 (* ---- the sequential apply path ---- *)
-(* the indexes handed to Update are strictly increasing, for every task queue *)
+(* the indexes handed to Update are strictly increasing, for every task queue the apply path
+   handles without a panic ([a_err] = 0; on an index gap the real apply path has already
+   handed the entry to Update when setApplied panics: that call is in the model too) *)
 Theorem update_indexes_strictly_increasing :
   forall applied init disk q,
+  a_err (handle_tasks (a_start applied init disk) q) = 0%N ->
   StronglySorted (fun a b => (fst a < fst b)%N) (calls_of (handle_tasks (a_start applied init disk) q)).
 Proof. exact update_indexes_strictly_increasing_proved. Qed.
 Print Assumptions update_indexes_strictly_increasing.
@@ -133,6 +136,7 @@ Print Assumptions update_indexes_strictly_increasing.
 (* an on-disk state machine is never handed an entry at or below the index returned by Open *)
 Theorem ondisk_never_at_or_below_open_index :
   forall applied init q x,
+  a_err (handle_tasks (a_start applied init true) q) = 0%N ->
   In x (calls_of (handle_tasks (a_start applied init true) q)) -> (init < fst x /\ applied < fst x)%N.
 Proof. exact ondisk_never_at_or_below_open_index_proved. Qed.
 Print Assumptions ondisk_never_at_or_below_open_index.
